@@ -1,8 +1,9 @@
 (** C40 correspondence: the block-store model against recorded runs of the real ledger store
     (core/store/ledgerstore through core/ledger): histories of AddBlock / AddHeader / Close+Open with
     the answers of every chain query, the persisted records and the header-index cache window
-    observed at checkpoints.  Hashes are recorded by their first 8 bytes, headers and transactions by
-    a 64-bit digest of their serialization. *)
+    observed at checkpoints.  Hashes, and the SHA-256 digests of serialized headers and transactions, are recorded as small
+    identifiers (order of first appearance in the run; the zero hash is 0): the model only compares
+    them and tests for the zero hash. *)
 From Coq Require Import List Bool NArith ZArith.
 Import ListNotations.
 From Ont Require Export Lib.CorrLib Model.BlockStore.
@@ -19,6 +20,7 @@ Definition T (k body : N) : tx := {| t_hash := k; t_body := body |}.
 Inductive xop :=
 | XCommit (b : block) (st : status)
 | XHeader (hd : header) (st : status)
+| XRun (l : list (N * N))            (* AddBlock of consecutive empty next blocks (hash, header digest), all Added *)
 | XReopen.
 
 (** one observation *)
@@ -90,6 +92,14 @@ Definition ck_ok (s : store) (c : ckpt) : bool :=
       && forallb (q_ok cb ct s) qs
   end.
 
+Fixpoint run_empty (s : store) (l : list (N * N)) : option store :=
+  match l with
+  | [] => Some s
+  | (k, d) :: r =>
+      let '(s', st') := add_block s (B k (s_cur_height s + 1) d []) in
+      if status_eqb Added st' then run_empty s' r else None
+  end.
+
 (** run the recorded operations; None when the model's status differs from the recorded one or the
     model fails to open where the implementation opened *)
 Fixpoint run_x (g : block) (s : store) (ops : list xop) : option store :=
@@ -99,6 +109,7 @@ Fixpoint run_x (g : block) (s : store) (ops : list xop) : option store :=
       let '(s', st') := add_block s b in if status_eqb st st' then run_x g s' r else None
   | XHeader hd st :: r =>
       let '(s', st') := add_header s hd in if status_eqb st st' then run_x g s' r else None
+  | XRun l :: r => match run_empty s l with Some s' => run_x g s' r | None => None end
   | XReopen :: r => match open_store (s_db s) g with Some s' => run_x g s' r | None => None end
   end.
 
